@@ -411,6 +411,20 @@ func srcAsiBeforeBacktick(src string) bool {
 	return false
 }
 
+// codeHasHTMLCommentOpener: the punctuators `<`, `!`, `--` directly adjacent outside literals: in a script `<!--` opens
+// an HTML-like comment (ECMA-262 Annex B.1.1). goja does not implement those comments, so this is checked on the text.
+func codeHasHTMLCommentOpener(code string) bool {
+	toks := oaScan(code)
+	for i := 0; i+2 < len(toks); i++ {
+		a, b, d := toks[i], toks[i+1], toks[i+2]
+		if a.kind == "punct" && a.text == "<" && b.kind == "punct" && b.text == "!" && d.kind == "punct" && d.text == "--" &&
+			b.off == a.off+1 && d.off == b.off+1 {
+			return true
+		}
+	}
+	return false
+}
+
 // oaSourceClass names the first known class the source text (to be printed under cfg) falls in,
 // or "". tree may be nil; it is the xjs tree of the source and is needed for the no-semi hazards.
 func oaSourceClass(src, cfg string, tree *ast.Program) string {
